@@ -39,3 +39,67 @@ def self_validate(prop, rep):
                 True if ok else None,
                 'self-validation failed: %s -> %s' % (v['id'], status))
     rep.coverage_extra['self_validation'] = {'mutants_refuted': nm, 'twins_silent': nt}
+
+
+# ----------------------------------------------------------------------------------------------------------------------
+# The committed validation assets (/verif/seeded: changes that break a property, written by fresh sub-agents and confirmed
+# by me; /verif/twins: behaviour-preserving refactorings, confirmed the same way) are replayed for the property: each
+# patch is applied to a scratch copy of the tree under analysis and the property's quick check must answer what
+# validation/expected.json records for it (exit 1 for a seed it refutes, 0 for a twin, 2 where DESIGN.md lists the variant
+# as undecided).  A different answer makes the run exit 2 (the analyser does not behave as documented), never 1.  Patches
+# that do not apply to the tree under analysis (it was edited there) are skipped.
+def _apply_patch(dst, patch):
+    import subprocess
+    r = subprocess.run(['git', 'apply', '--unsafe-paths', '--directory=' + dst, patch], cwd='/', capture_output=True, text=True)
+    if r.returncode != 0:
+        r = subprocess.run(['patch', '-p1', '-s', '-f', '-d', dst, '-i', patch], capture_output=True, text=True)
+    return r.returncode == 0
+
+
+def _run_patch(args):
+    import subprocess
+    import sys
+    d, prop, root = args
+    from .program import REPO
+    name = os.path.basename(d)
+    dst = os.path.join(root, name)
+    os.makedirs(dst)
+    shutil.copytree(os.path.join(REPO, 'xrspatial'), os.path.join(dst, 'xrspatial'),
+                    ignore=shutil.ignore_patterns('tests', 'datasets', '__pycache__', '*.pyc'))
+    if not _apply_patch(dst, os.path.join(d, 'patch.diff')):
+        shutil.rmtree(dst, ignore_errors=True)
+        return name, None
+    env = dict(os.environ, XRSA_REPO=dst, XRSA_EVIDENCE_DIR=os.path.join(dst, 'ev'), PYTHONPATH=selftest.VERIF)
+    r = subprocess.run([sys.executable, '-m', 'xrsa.check', prop], cwd=selftest.VERIF, env=env, capture_output=True, text=True)
+    shutil.rmtree(dst, ignore_errors=True)
+    return name, r.returncode
+
+
+def replay_assets(prop, rep):
+    import glob
+    import json
+    exp_file = os.path.join(selftest.VERIF, 'validation', 'expected.json')
+    if not os.path.exists(exp_file):
+        return
+    exp = json.load(open(exp_file))
+    dirs = sorted(glob.glob(os.path.join(selftest.VERIF, 'seeded', prop + '-*')) +
+                  glob.glob(os.path.join(selftest.VERIF, 'twins', 'T' + prop + '-*')))
+    dirs = [d for d in dirs if os.path.exists(os.path.join(d, 'patch.diff')) and os.path.basename(d) in exp['variants']]
+    root = tempfile.mkdtemp(prefix='xrsa-assets-')
+    try:
+        with ThreadPoolExecutor(int(os.environ.get('XRSA_JOBS', '16'))) as ex:
+            results = list(ex.map(_run_patch, [(d, prop, root) for d in dirs]))
+    finally:
+        shutil.rmtree(root, ignore_errors=True)
+    n = {'seed': 0, 'twin': 0, 'skipped': 0}
+    for name, rc in results:
+        kind = 'twin' if name.startswith('T') else 'seed'
+        if rc is None:
+            n['skipped'] += 1
+            rep.add('SV-skip', 'validation/expected.json', prop, '%s %s: patch does not apply to this tree' % (kind, name), 0, True, trivial=True)
+            continue
+        want = exp['variants'][name].get(prop, 0)
+        n[kind] += 1
+        rep.add('SV-' + kind, 'validation/expected.json', prop, '%s %s: exit %d expected' % (kind, name, want), 0,
+                True if rc == want else None, 'the check answered exit %d for %s, exit %d is recorded' % (rc, name, want))
+    rep.coverage_extra['assets_replayed'] = n
